@@ -97,8 +97,12 @@ class Interp:
             if key in self.modconst_cache:
                 return self.modconst_cache[key]
             fr = Frame({}, [], modname)
+            n_pc = len(st.pc)
             val = self.eval(st, fr, assigns[name])
-            self.modconst_cache[key] = val
+            if len(st.pc) == n_pc:
+                # cache only values whose evaluation assumed nothing (axioms of sqrt/log/exp terms
+                # belong to the state in which the term was created)
+                self.modconst_cache[key] = val
             return val
         imps = mod.imports()
         if name in imps:
